@@ -236,6 +236,12 @@ def unchanged(pre, post):
     return out
 
 
+# a rejected call is a step of every property's induction: whatever it leaves behind is seen by the later calls
+REJECT_TAGS = {'first-to-name table unchanged': {'C01', 'C03'},
+               'last bid, last bidder, doubled/redoubled flags unchanged': {'C01', 'C03'},
+               'history unchanged': {'C01', 'C02'}, 'turn unchanged': {'C01', 'C02'}, 'per-seat lists unchanged': {'C01', 'C02'}}
+
+
 def _arr_eq(a, b):
     if isinstance(a, list) or isinstance(b, list):
         if not (isinstance(a, list) and isinstance(b, list)) or len(a) != len(b):
@@ -342,7 +348,7 @@ def case_step(props):
         if r is BiddingPhaseState.ILLEGAL:
             add({'C01'}, 'a call reported ILLEGAL is illegal under the Laws', z3.Not(is_legal))
             for label, cond in unchanged(pre, post).items():
-                add({'C01'}, 'rejected call: ' + label, cond)
+                add(REJECT_TAGS.get(label, {'C01'}), 'rejected call: ' + label, cond)
             return dict(outcome='ILLEGAL', checks=chk, refine=refine, sample=_sample(eng, pre, call))
         T = ref_step(S, call)
         add({'C01'}, 'an accepted call is legal under the Laws', is_legal)
@@ -457,6 +463,65 @@ def case_init(props):
 
 
 # --------------------------------------------------------------------------
+# H3: two auctions in one process do not interfere (no state shared between instances, none left behind in the module)
+# --------------------------------------------------------------------------
+def case_two_auctions(props, when, k=2):
+    """Auction A takes k symbolic calls; auction B is constructed `when` = 'before' or 'after' them.  B must be exactly a
+    freshly constructed auction (every public accessor, the private fields, no contract) and must treat one symbolic call
+    as a fresh auction does."""
+    from bridge_env import Bid, BiddingPhase, BiddingPhaseState, Player, Vul
+
+    def path(eng):
+        dA, vA, dB, vB = z3.Ints('dealer vul dealer_b vul_b')
+        eng.assume(z3.And(1 <= dA, dA <= 4, 1 <= vA, vA <= 4, 1 <= dB, dB <= 4, 1 <= vB, vB <= 4))
+        calls = [z3.Int(f'a_call{i}') for i in range(k)]
+        cb = z3.Int('b_call')
+        eng.assume(z3.And([z3.And(1 <= c, c <= 38) for c in calls + [cb]]))
+        cex = lambda m: {'kind': 'two_auctions', 'props': sorted(props), 'when': when, 'dealer': hx.mval(m, dA), 'vul': hx.mval(m, vA),
+                         'dealer_b': hx.mval(m, dB), 'vul_b': hx.mval(m, vB), 'calls': [hx.mval(m, c) for c in calls], 'b_call': hx.mval(m, cb)}
+        try:
+            A = eng.construct(BiddingPhase, [SEnum(Player, dA), SEnum(Vul, vA)], {})
+            B = eng.construct(BiddingPhase, [SEnum(Player, dB), SEnum(Vul, vB)], {}) if when == 'before' else None
+            for c in calls:
+                try:
+                    eng.call_function(BiddingPhase.take_bid, [A, SEnum(Bid, c)], {})
+                except symx.RaiseEx:
+                    break                      # A has ended: later calls are refused (C02), irrelevant here
+            if B is None:
+                B = eng.construct(BiddingPhase, [SEnum(Player, dB), SEnum(Vul, vB)], {})
+        except symx.RaiseEx as e:
+            return dict(outcome='raise', cex=cex, checks=[(f'{p}: constructing / using two auctions does not raise ({e.exc!r})', False) for p in sorted(props)])
+        st = read_state(B, eng)
+        chk = []
+        fresh = z3.And(st['d'] == dB, st['v'] == vB, st['a'] == dB, st['n'] == 0, st['lbid'] == 0, st['lb'] == 0, z3.Not(st['x']), z3.Not(st['xx']),
+                       z3.And([x == 0 for x in st['dc'].values()]), z3.And([st['np'][p] == 0 for p in range(1, 5)]),
+                       z3.And([st['av'][i] == (1 if i < 36 else 0) for i in range(38)]))
+        kc, con = read_contract(eng, B)
+        for p in sorted(props):
+            chk.append((f'{p}: a second auction ({when} the calls of the first) is exactly a fresh auction: dealer to call, empty histories, '
+                        'every bid and pass available, no double, empty first-to-name table', fresh))
+        if 'C03' in props:
+            chk.append(('C03: the second auction reports no contract', kc == 'ret' and con is None))
+        try:
+            r = eng.call_function(BiddingPhase.take_bid, [B, SEnum(Bid, cb)], {})
+        except symx.RaiseEx as e:
+            chk.append((f'{sorted(props)[0]}: the second auction takes a first call without raising ({e.exc!r})', False))
+            return dict(outcome='two auctions', checks=chk, cex=cex)
+        if isinstance(r, SEnum):
+            r = eng.concretize_enum(r)
+        post = read_state(B, eng)
+        legal = cb <= 36
+        for p in sorted(props):
+            chk.append((f'{p}: the opening call of the second auction is accepted iff it is a bid or a pass',
+                        z3.BoolVal(r is not BiddingPhaseState.ILLEGAL) == legal))
+            chk.append((f'{p}: after it the second auction holds exactly that call (or nothing if rejected)',
+                        z3.If(legal, z3.And(post['n'] == 1, post['a'] == dB % 4 + 1, post['lbid'] == z3.If(cb <= 35, cb, 0)),
+                              z3.And(post['n'] == 0, post['a'] == dB))))
+        return dict(outcome='two auctions', checks=chk, cex=cex)
+    return hx.explore_case(path, dict(max_paths=20000))
+
+
+# --------------------------------------------------------------------------
 # H2: BMC from the constructor against the explicit-history oracle
 # --------------------------------------------------------------------------
 def oracle(cs, d):
@@ -531,7 +596,7 @@ def case_bmc(props, dealer, K, first=None, only=None):
             if r is BiddingPhaseState.ILLEGAL:
                 add({'C01'}, f'call {i}: a rejected call is illegal on the true history', z3.Not(O['legal_next'](cs[i])))
                 for label, cond in unchanged(pre, post).items():
-                    add({'C01'}, f'call {i} rejected: ' + label, cond)
+                    add(REJECT_TAGS.get(label, {'C01'}), f'call {i} rejected: ' + label, cond)
                 outcome = f'ILLEGAL at call {i}'
                 break
             add({'C01'}, f'call {i}: an accepted call is legal on the true history', O['legal_next'](cs[i]))
@@ -586,6 +651,9 @@ def build_cases(props, tier, K_quick, K_thorough, deep=None):
           (case_step, 'H1 one call from an arbitrary live auction state', dict(props=props))]
     if 'C02' in props:
         cs.append((case_after_end, 'H1e any call after the end', dict(props=props)))
+    for when in ('before', 'after'):
+        cs.append((case_two_auctions, f'H3 a second auction constructed {when} two calls of a first one is a fresh auction',
+                   dict(props=props, when=when, k=3 if tier == 'thorough' else 2)))
     K = K_thorough if tier == 'thorough' else K_quick
     for d in range(1, 5):
         for first in [a + b + c for a in 'PBO' for b in 'PBO' for c in 'PBO']:
@@ -604,6 +672,7 @@ COMMON_ASSUMPTIONS = [
     'enum members are identified by their integer value; None is code 0',
     'the bid history of the inductive step is a z3 Array with symbolic length (reads at -1, -2 and appends only)',
     'np.ones(38) / slice and index assignment are modelled on a 38-term vector',
+    'H3: instances share no state and none is left in the module / class (two instances, 2-3 calls on the first)',
     'H1 quantifies over all states satisfying the invariant printed in harness/auction.py:inv; H0 and H1 together '
     'cover histories of every length; the reading of legality on the TRUE history is cross-checked by H2 up to K calls',
 ]
